@@ -1,6 +1,230 @@
 package main
 
-import "verif/ev"
+// C20 layer 3 — the interpreter: interp.Main with a scripted Readline and a controllable InterruptChan.
+// Interrupts are delivered event-driven (when the virtual stdout sees a marker / when a prompt is about
+// to be answered), never by sleeping. Metamorphic oracle: the transcript (prompts + outputs) of a run in
+// which a spinning evaluation is interrupted must equal the transcript of the same session where that
+// line only prints its marker — i.e. exactly the innermost evaluation was cancelled, the enclosing REPL
+// level kept its context and input, earlier and later results are intact, the run ends normally.
 
-// layer 3 (interpreter) – filled in below
-func c20Interp(run *ev.Run) {}
+import (
+	"context"
+	"fmt"
+	"strings"
+	"sync"
+	"time"
+
+	"verif/ev"
+	"verif/fqx"
+	"verif/gen"
+	"verif/vos"
+)
+
+type c20Line struct {
+	Text      string // what the user types
+	Spin      bool   // the line prints its marker and then spins forever (must be interrupted)
+	Marker    string
+	Interrupt int // interrupts to send when the marker is seen (Spin lines), or at the prompt (idle interrupt)
+	AtPrompt  bool
+}
+
+type c20Transcript struct {
+	Prompts []string
+	Stdout  string
+	Exit    int
+	Err     string
+	Panic   string
+	Timeout bool
+}
+
+// c20RunSession runs `fq -n -i` (REPL on null) with the scripted lines.
+func c20RunSession(lines []c20Line, interrupts bool, stopAtEnd bool) c20Transcript {
+	o := vos.New("-n", "-i")
+	o.Interrupt = make(chan struct{})
+	var tr c20Transcript
+	var mu sync.Mutex
+	fired := map[string]bool{}
+	send := func(n int) {
+		for i := 0; i < n; i++ {
+			go func() {
+				select {
+				case o.Interrupt <- struct{}{}:
+				case <-time.After(20 * time.Second):
+				}
+			}()
+		}
+	}
+	for _, l := range lines {
+		text := l.Text
+		if l.Spin {
+			if interrupts {
+				text = fmt.Sprintf("%q, (range(1e12) | select(false))", l.Marker)
+			} else {
+				text = fmt.Sprintf("%q", l.Marker)
+			}
+		}
+		o.Lines = append(o.Lines, text)
+	}
+	o.StdoutV.OnWrite = func(p []byte) {
+		if !interrupts {
+			return
+		}
+		s := o.StdoutV.String()
+		for _, l := range lines {
+			// wait for the newline after the marker: the value and its newline are two writes, and output written
+			// after cancellation is (rightly) suppressed
+			if l.Spin && l.Interrupt > 0 && strings.Contains(s, "\""+l.Marker+"\"\n") {
+				mu.Lock()
+				done := fired[l.Marker]
+				fired[l.Marker] = true
+				mu.Unlock()
+				if !done {
+					send(l.Interrupt)
+				}
+			}
+		}
+	}
+	o.OnReadline = func(prompt string, n int) {
+		mu.Lock()
+		tr.Prompts = append(tr.Prompts, prompt)
+		mu.Unlock()
+		// idle interrupt: delivered on the channel while the REPL waits at the prompt; wait until the
+		// trigger goroutine has taken it (the send completes) so that the order of events is known
+		if interrupts && n < len(lines) && lines[n].AtPrompt {
+			for i := 0; i < lines[n].Interrupt; i++ {
+				select {
+				case o.Interrupt <- struct{}{}:
+				case <-time.After(20 * time.Second):
+				}
+			}
+			time.Sleep(20 * time.Millisecond) // let the cancel propagate (only in the probe scenarios)
+		}
+	}
+	done := make(chan struct{})
+	var res vos.Result
+	var pi *fqx.PanicInfo
+	go func() {
+		pi = guardStack(func() { res = o.RunMain(context.Background(), fqx.Registry()) })
+		close(done)
+	}()
+	select {
+	case <-done:
+	case <-time.After(90 * time.Second):
+		tr.Timeout = true
+		return tr
+	}
+	if pi != nil {
+		tr.Panic = fmt.Sprint(pi.Value) + "\n" + pi.Stack
+	}
+	tr.Stdout = string(res.Stdout)
+	tr.Exit = res.Exit
+	if res.Err != nil {
+		tr.Err = res.Err.Error()
+	}
+	return tr
+}
+
+func c20Interp(run *ev.Run) {
+	n := run.Pick(24, 400)
+	for id := 0; id < n; id++ {
+		rng := gen.New(run.Seed).Fork(0xC2030000 + uint64(id))
+		// build a session: nesting depth 1..3, one or two spinning lines at random levels, plain lines around
+		var lines []c20Line
+		depth := 1
+		maxDepth := 1 + rng.Intn(3)
+		nSpin := 0
+		steps := 4 + rng.Intn(6)
+		for s := 0; s < steps; s++ {
+			switch k := rng.Intn(6); {
+			case k == 0 && depth < maxDepth:
+				lines = append(lines, c20Line{Text: fmt.Sprintf("%d | repl", 100+depth)})
+				depth++
+			case k == 1 && depth > 1:
+				lines = append(lines, c20Line{Text: "^D"})
+				depth--
+			case k <= 3 && nSpin < 2:
+				nSpin++
+				ni := 1
+				if id%3 == 2 {
+					ni = 1 + rng.Intn(2) // hostile third of the sessions: double interrupts
+				}
+				lines = append(lines, c20Line{Spin: true, Marker: fmt.Sprintf("spin%d_%d", id, s), Interrupt: ni})
+			default:
+				lines = append(lines, c20Line{Text: gen.Pick(rng, []string{".", "1+1", `"plain"`, "[., 1] | tojson", "[range(3)]"})})
+			}
+		}
+		if nSpin == 0 {
+			lines = append(lines, c20Line{Spin: true, Marker: fmt.Sprintf("spin%d_x", id), Interrupt: 1})
+		}
+		lines = append(lines, c20Line{Text: `"after"`})
+		for ; depth > 0; depth-- {
+			lines = append(lines, c20Line{Text: "^D"})
+		}
+		hostile := false
+		if id%3 == 2 {
+			// idle interrupt at a prompt
+			k := rng.Intn(len(lines))
+			if !lines[k].Spin {
+				lines[k].AtPrompt = true
+				lines[k].Interrupt = 1
+			}
+		}
+		for _, l := range lines {
+			if l.Interrupt > 1 || l.AtPrompt {
+				hostile = true
+			}
+		}
+		ref := c20RunSession(lines, false, false)
+		got := c20RunSession(lines, true, false)
+		run.Eval(1)
+		run.Count("interp:sessions", 1)
+		var desc []string
+		for _, l := range lines {
+			if l.Spin {
+				desc = append(desc, fmt.Sprintf("<spin %s, %d interrupt(s)>", l.Marker, l.Interrupt))
+			} else {
+				desc = append(desc, l.Text)
+			}
+		}
+		session := strings.Join(desc, " ; ")
+		switch {
+		case got.Timeout:
+			// an evaluation that was not cancelled (or a deadlock) shows up here: decided by the event log,
+			// not by the clock: the marker WAS seen and the interrupt WAS sent, yet the session never ended
+			run.Violation("interp:interrupt-did-not-end-evaluation-or-deadlock", "session did not finish after the interrupt was delivered: "+session, map[string]any{"session": session})
+			continue
+		case ref.Timeout:
+			run.Inconclusive("reference-session-timeout")
+			continue
+		case got.Panic != "":
+			run.Violation("interp:panic", "session panicked: "+session+"\n"+trunc(got.Panic, 2000), map[string]any{"session": session})
+			continue
+		}
+		if hostile {
+			// a second interrupt (or one delivered while idle at a prompt) hits whatever evaluation is innermost
+			// at that moment - possibly the REPL level itself, which then ends: only safety/liveness is required
+			run.Count("interp:hostile-sessions (no crash, no deadlock, normal exit status)", 1)
+			if got.Exit != 0 && got.Exit != 1 {
+				run.Violation("interp:hostile:exit-status", fmt.Sprintf("session [%s]: exit %d (err %s)", session, got.Exit, got.Err), map[string]any{"session": session})
+			}
+			run.Distinct("interp-hostile:" + session)
+			continue
+		}
+		if got.Exit != ref.Exit {
+			run.Violation("interp:exit-status", fmt.Sprintf("session [%s]: exit %d with interrupts, %d without (err %s)", session, got.Exit, ref.Exit, got.Err), map[string]any{"session": session})
+			continue
+		}
+		if strings.Join(got.Prompts, "|") != strings.Join(ref.Prompts, "|") {
+			run.Violation("interp:prompt-sequence", fmt.Sprintf("session [%s]: prompts with interrupts %q, without %q (an interrupt must cancel only the innermost evaluation: the REPL level and its input stay)", session, got.Prompts, ref.Prompts), map[string]any{"session": session})
+			continue
+		}
+		if got.Stdout != ref.Stdout {
+			run.Violation("interp:output", fmt.Sprintf("session [%s]: output differs:\n%s", session, firstDiff(ref.Stdout, got.Stdout)), map[string]any{"session": session})
+			continue
+		}
+		run.Count("interp:interrupted-evaluations", int64(nSpin))
+		run.Count("interp:prompts-compared", int64(len(got.Prompts)))
+		run.Distinct("interp:" + session)
+	}
+	run.Sample(map[string]any{"layer": 3, "example": "101 | repl ; <spin, 2 interrupts> ; . ; ^D ; \"after\" ; ^D"})
+}
